@@ -44,6 +44,7 @@ def feature_table(bio_features):
         for key in sorted(f.qualifiers):
             val = f.qualifiers[key]
             quals.append((key, [str(x) for x in val] if isinstance(val, list) else str(val)))
+        quals.append(("(location operator)", str(getattr(f.location, "operator", None))))
         rows.append({"type": f.type, "loc": canon_loc(f.location), "quals": quals})
     return rows
 
@@ -397,6 +398,8 @@ class Annotations(RoundTrip):
                                                            ("GO:0009055", "electron transfer activity"),
                                                            ("GO:0016020", "membrane")])))
             pfam.score, pfam.evalue, pfam.database, pfam.detection = 20.5, 1e-06, "Pfam-A.hmm", "hmmscan"
+            if perm == 5:
+                pfam.score, pfam.evalue = 0.0, 0.0       # legitimate values (a perfect e-value underflows to zero)
             rec.add_pfam_domain(pfam)
             second = PFAMDomain(bloc, "other", FeatureLocation(v["qs"], v["qe"]), identifier="PF00005", tool="pfams", locus_tag="gene")
             second.domain_id = "pfam_gene_2"
@@ -412,10 +415,13 @@ class Annotations(RoundTrip):
             modular.subtypes = chosen(["Trans-AT-KS", "Beta-OH", "other"])[:2]
             modular.specificity = chosen(["consensus: mal", "PKS signature: mal", "Minowa: mmal"])
             modular.label, modular.translation = "gene_KS1", "MAG"
+            modular.evalue, modular.score = (0.0, 0.0) if perm == 5 else (1e-30, 250.75)
             rec.add_antismash_domain(modular)
         elif kind == "motif":
             motif = CDSMotif(aloc, "gene", FeatureLocation(v["ps"], v["pe"]), tool="nrps_pks_domains")
             motif.domain_id, motif.label, motif.evalue, motif.score = "nrpspksmotif_gene_0001", "C1_dual", 1e-05, 12.5
+            if perm == 5:
+                motif.evalue, motif.score = 0.0, 0.0
             motif.notes.append("a note")
             rec.add_cds_motif(motif)
             # an external CDS_motif only ever arrives through from_biopython
@@ -458,6 +464,11 @@ class Annotations(RoundTrip):
             rec.add_feature(misc)
             created = Feature(bloc, feature_type="misc_binding", created_by_antismash=True)
             rec.add_feature(created)
+            if var["gshape"] == "j2":
+                # GenBank's other compound operator
+                from antismash.common.secmet.locations import CompoundLocation
+                parts = list(gloc.parts)
+                rec.add_feature(Feature(CompoundLocation(parts, operator="order"), feature_type="misc_RNA"))
             rec.add_source(Source(FeatureLocation(0, n, 1), qualifiers={"organism": ["thing"], "mol_type": ["genomic DNA"]}))
         elif kind == "sideloaded":
             from antismash.common.secmet.features.protocluster import SideloadedProtocluster
@@ -542,9 +553,12 @@ def internal(rec):
         rows["asdomain " + dom.get_name()] = (
             type(dom).__name__, canon_loc(dom.location), cn(dom.protein_location.start),
             cn(dom.protein_location.end), str(dom.domain), dom.tool, dom.locus_tag, list(dom.asf.to_biopython()),
-            list(getattr(dom, "subtypes", [])), list(getattr(dom, "specificity", [])), str(dom.label), translation(dom))
+            list(getattr(dom, "subtypes", [])), list(getattr(dom, "specificity", [])), str(dom.label), translation(dom),
+            str(dom.evalue), str(dom.score))
     for motif in rec.get_cds_motifs():
         row = [type(motif).__name__, canon_loc(motif.location), str(motif.tool), str(motif.locus_tag), notes(motif)]
+        if type(motif).__name__ == "CDSMotif":
+            row += [str(motif.evalue), str(motif.score)]
         if hasattr(motif, "core"):
             row += [motif.leader, motif.core, motif.tail, motif.peptide_class, motif.peptide_subclass, str(motif.score),
                     [str(w) for w in motif.alternative_weights]]
@@ -557,7 +571,8 @@ def internal(rec):
     for gene in rec.get_genes():
         rows["gene " + gene.get_name()] = (str(gene.gene_name), canon_loc(gene.location), notes(gene))
     for feat in list(rec.get_generics()) + list(rec.get_sources()):
-        rows["generic " + feat.type] = (canon_loc(feat.location), notes(feat), feat.created_by_antismash)
+        rows["generic " + feat.type] = (canon_loc(feat.location), notes(feat), feat.created_by_antismash,
+                                        getattr(feat.location, "operator", None))
     if rec.get_protoclusters() or rec.get_subregions():
         rows["areas"] = summary(rec)
         rows["area details"] = [(type(a).__name__, a.tool, sorted(getattr(a, "extra_qualifiers", {}).items()))
